@@ -306,7 +306,12 @@ let on_proc (idx : int) (msg : message) (obs : string) : unit =
                   (fun nd -> if Hashtbl.mem tainted (idx, token_of_id nd.d_id) then Hashtbl.replace tainted_nds (nd_key nd) ())
                   x.nds;
                 check "C07" (c07_delta_ok o.snap.nodes o.snap.sched x)
-                  "reply delta is not the version-prefix of the sender's stale entries (or names a scheduled member)"
+                  "reply delta is not the version-prefix of the sender's stale entries (or names a scheduled member)";
+                (match msg with
+                 | Syn (_, dg) | SynAck (dg, _) ->
+                     check "C14" (c14_delta_ok dg o.snap.nodes x)
+                       "a node delta of the reply does not start where the sender's reset decision says (0 iff the peer's watermark and max version are both below the sender's watermark, else the peer's max version)"
+                 | _ -> ())
             | None -> ())
        | None -> ());
       (* fresh heartbeat evidence: a digest entry strictly above the stored non-zero heartbeat
@@ -405,7 +410,7 @@ let on_syn (idx : int) (obs : string) : unit =
       end
 
 (* DELTA: `<ACK dump> bytes <n>`; the budget is for the delta alone (4 header bytes excluded) *)
-let on_delta (idx : int) (mtu : int) (sched : id list) (obs : string) : unit =
+let on_delta ?dg (idx : int) (mtu : int) (sched : id list) (obs : string) : unit =
   if obs <> "PANIC" then begin
     let c = cursor_of_line obs in
     let m = norm_message (parse_message c) in
@@ -415,7 +420,12 @@ let on_delta (idx : int) (mtu : int) (sched : id list) (obs : string) : unit =
     match Hashtbl.find_opt snaps idx, delta_of_message m with
     | Some s, Some x ->
         check "C07" (c07_delta_ok s.nodes sched x)
-          "computed delta is not the version-prefix of the sender's stale entries (or names a scheduled member)"
+          "computed delta is not the version-prefix of the sender's stale entries (or names a scheduled member)";
+        (match dg with
+         | Some dg ->
+             check "C14" (c14_delta_ok dg s.nodes x)
+               "a computed node delta does not start where the sender's reset decision says"
+         | None -> ())
     | _ -> ()
   end
 
@@ -528,3 +538,34 @@ let on_hs_end (a : int) (b : int) : unit =
   if !hs_deliverable then
     check "C01" ?cls:(kf2_class ()) (progressed !hs_base (frontier_table ()) ~only:(Some [a; b]))
       (Printf.sprintf "complete handshake %d<->%d with deliverable data advanced no copy at either node" a b)
+
+
+(* ---------- C06 / C04: a local write does to the IMPLEMENTATION's own copy exactly what the KV
+   model (NodeState.set / set_with_ttl / delete / delete_after_ttl) does to it ---------- *)
+let on_write_model (idx : int) (kind : string) (k : bytes) (v : bytes) (before : snap option) (obs : string) : unit =
+  match Hashtbl.find_opt infos idx, before, parse_obs obs with
+  | Some info, Some b, Some o -> (
+      match own_copy_of b info.self, own_copy_of o.snap info.self with
+      | Some cb, Some ca ->
+          let t = cz_of_string (BZ.to_string !now) in
+          let v = norm_val v in
+          let expected =
+            match kind with
+            | "SET" -> fst (set cb k v)
+            | "SETTTL" -> fst (set_with_ttl t cb k v)
+            | "DEL" -> delete t cb k
+            | _ -> delete_after_ttl t cb k
+          in
+          let frontier_ok = neq expected.c_max ca.c_max && neq expected.c_gc ca.c_gc in
+          let ver_ok =
+            match kget k expected.c_kvs, kget k ca.c_kvs with
+            | Some e, Some a -> neq e.v_ver a.v_ver
+            | None, None -> true
+            | _ -> false
+          in
+          check "C04" (frontier_ok && ver_ok)
+            (kind ^ ": the own copy's max version / the written key's version is not what an effective write (fresh version max+1) or an ineffective one (unchanged) gives");
+          check "C06" (kvs_eqb expected.c_kvs ca.c_kvs)
+            (kind ^ ": the own copy after the call differs from the key-value model applied to the copy before the call")
+      | _ -> ())
+  | _ -> ()
